@@ -97,8 +97,10 @@ class Output(BaseOutput):
         self.num_records = int(
             abs((timer.stop_time - timer.start_time) // self.output_period)
         )
-        # if not skip_initial:  # Add an initial record
-        #     self.num_records += 1
+        # Without skip_initial (cold start) the records are at steps
+        # 0, P, 2P, ... < Nsteps, one more when P does not divide Nsteps
+        if not skip_initial:
+            self.num_records = int(-(-timer.Nsteps // self.output_period_step))
         logger.info("  Number of records: %s", self.num_records)
 
         if self.numrec:
